@@ -1193,7 +1193,9 @@ TypeOK == /\ prog.base \in AllBases
 NullVsNonPtr(x, y) == (x = "kv" /\ ~IsPtr(VT(y))) \/ (y = "kv" /\ ~IsPtr(VT(x)))
 RECURSIVE SubOf(_)
 SubOf(f) == CASE f.form = "bin" -> (IF f.l \in EntNames /\ f.r \in EntNames /\ NullVsNonPtr(f.l, f.r) THEN "nullconst-vs-nonpointer" \o f.op ELSE f.op)
-              [] f.form = "un" -> (IF f.a = "gcbf" THEN "constbitfield-" \o f.op ELSE f.op)
+              [] f.form = "un" -> (IF f.a = "gcbf" THEN "constbitfield-" \o f.op
+                                   ELSE IF f.op \in IncDec /\ f.a \in EntNames /\ ~IsScalar(VT(f.a)) THEN "nonscalar-" \o f.op
+                                   ELSE f.op)
               [] f.form = "asg" -> (IF f.l = "gcbf" THEN "constbitfield-" ELSE "") \o (IF f.op = "=" THEN "assign" ELSE f.op)
               [] f.form = "call" -> f.fn
               [] f.form \in {"sinit", "strinit"} -> "init"
